@@ -103,6 +103,43 @@ def _cigar(rng, indels, length=None):
     return [list(o) for o in ops]
 
 
+def _rich_cigar(rng):
+    """CIGAR-rich reads (round 4): 2..6 aligned blocks (M / = / X, some of length 1) separated by insertions,
+    deletions, reference skips and padding, also two of them in a row (D next to N, I next to D), an insertion
+    right after the leading clip, hard + soft clips at both ends"""
+    P = 6
+    ops = []
+    if rng.random() < 0.3:
+        ops.append((H, rng.randint(1, 9)))
+    if rng.random() < 0.5:
+        ops.append((S, rng.randint(1, 12)))
+        if rng.random() < 0.3:
+            ops.append((I, rng.randint(1, 4)))
+    nblocks = rng.randint(2, 6)
+    for b in range(nblocks):
+        ops.append((rng.choice([M, M, M, EQ, X]), rng.choice([1, 1, 2, 5, rng.randint(3, 40)])))
+        if b < nblocks - 1:
+            sep = [rng.choice([(I, rng.randint(1, 6)), (D, rng.randint(1, 25)), (N, rng.randint(1, 300)),
+                               (D, 1), (P, rng.randint(1, 3))])]
+            if rng.random() < 0.3:
+                sep.append(rng.choice([(N, rng.randint(1, 60)), (D, rng.randint(1, 9)), (I, 2)]))
+            if all(o in (I, P) for o, _l in sep) and rng.random() < 0.5:
+                sep.append((D, rng.randint(1, 7)))
+            ops += sep
+    if rng.random() < 0.4:
+        ops.append((S, rng.randint(1, 12)))
+    if rng.random() < 0.2:
+        ops.append((H, rng.randint(1, 9)))
+    # htslib merges nothing: adjacent equal ops are legal; keep them apart anyway so that the CIGAR reads naturally
+    out = []
+    for o, l in ops:
+        if out and out[-1][0] == o:
+            out[-1][1] += l
+        else:
+            out.append([o, l])
+    return out
+
+
 def _flag(rng):
     r = rng.random()
     if r < 0.35:
@@ -147,14 +184,14 @@ def _bins(rng, contigs, nmax):
     return recs
 
 
-def _reads(rng, contigs, nreads, indels, edges, noseq=False):
+def _reads(rng, contigs, nreads, indels, edges, noseq=False, rich=False):
     """reads placed uniformly, on bin edges, and around contig ends; returned coordinate-sorted"""
     out = []
     for tid, (name, L) in enumerate(contigs):
         n = nreads // len(contigs) + (1 if tid < nreads % len(contigs) else 0)
         my_edges = [e for (c, e) in edges if c == name] or [0]
         for _ in range(n):
-            cg = _cigar(rng, indels)
+            cg = _rich_cigar(rng) if (rich and rng.random() < 0.7) else _cigar(rng, indels)
             rl = sum(l for op, l in cg if op in (M, D, N, EQ, X))
             r = rng.random()
             if r < 0.45:
@@ -269,14 +306,14 @@ def _with_cli(rng, case):
     return case
 
 
-def _case(rng, k, nreads=None, nbins=None, tag=None, comments=None, odd=None, cli=None):
+def _case(rng, k, nreads=None, nbins=None, tag=None, comments=None, odd=None, cli=None, rich=False):
     names = rng.choice(CONTIG_SETS)[: rng.randint(1, 3)]
     contigs = [[n, rng.randint(200, 3000)] for n in names]
     indels = rng.random() < 0.4
     recs = _bins(rng, contigs, nbins or rng.choice([3, 10, 30, 60]))
     edges = [(c, x) for (c, s, e) in recs for x in (s, e)]
     n = nreads if nreads is not None else rng.choice([0, 1, 5, 40, 150, 300, 600])
-    reads = _reads(rng, contigs, n, indels, edges, noseq=rng.random() < 0.3)
+    reads = _reads(rng, contigs, n, indels, edges, noseq=rng.random() < 0.3, rich=rich)
     far = rng.random() < 0.1
     if far:  # genome-scale coordinates: the same layout moved far down the contigs
         off = dict((nm, rng.choice([2 ** 24 + 1, 123456789, 2 ** 27 + 5, 248000000])) for nm in names)
@@ -664,6 +701,9 @@ def gen_cases(rng, tier):
     # worker schedules of the real pool replayed through the small-step pool model (drawn last: the cases above
     # stay what they were for a given seed)
     cases += [_sched_case(rng, k) for k in range({"quick": 16, "thorough": 80, "search": 8}[tier])]
+    # CIGAR-rich BAMs: several indels / skips / pads per read (Props/C09Indel.lean says what each algorithm reports)
+    for k in range({"quick": 8, "thorough": 50, "search": 6}[tier]):
+        cases.append(_case(rng, k, nreads=rng.choice([40, 150, 300]), tag="cigar-rich", rich=True))
     if tier != "search":
         for nl in ({"quick": [5001], "thorough": [4999, 5000, 5001, 10000, 10001]}[tier]):
             cases.append(_chunk_case(rng, n=nl, size=5000, tag="chunks-default-size"))
